@@ -33,7 +33,8 @@ def make_case(rng, exhaustive_codes=None):
             code = rand_code(rng, nfv)
         s = rng.randrange(nel) + 1
         via = rng.choices(['atom', 'part', 'afix'], [6, 3, 1])[0]
-        atoms.append(dict(name=gen.atom_name(rng, sfac[s - 1], used), sfac=s, code=code, via=via, q=False))
+        atoms.append(dict(name=gen.atom_name(rng, sfac[s - 1], used), sfac=s, code=code, via=via, q=False,
+                          partn=rng.choice([1, 2, 3, -1, -2, 1, 2])))
     if rng.random() < 0.5:
         for k in range(rng.randint(1, 3)):
             atoms.append(dict(name=f'Q{k + 1}', sfac=1, code=11.0, via='atom', q=True))
@@ -79,7 +80,7 @@ def render(case):
         if a['via'] == 'atom':
             body.append(gen.AtomSpec(a['name'], a['sfac'], xyz, a['code'], (0.03,)))
         elif a['via'] == 'part':
-            body.append(f'PART {1 + k % 2} {a["code"]:.5f}')
+            body.append(f'PART {a.get("partn", 1 + k % 2)} {a["code"]:.5f}')
             body.append(gen.AtomSpec(a['name'], a['sfac'], xyz, 11.0, (0.03,)))
             body.append('PART 0')
         else:  # inside an AFIX group the atom keeps its own code (C03: only PART supplies one)
@@ -163,7 +164,7 @@ def evaluate(ctx, cases, stream=None):
                 continue
             m, spec = r['spec_m'], r['spec']
             got_m, got = obs['occ'][what]
-            tags = [mclass(m), 'p<0' if r['spec_p'] < 0 else 'p>=0', 'via=' + a['via'], 'rule-open' if spec is None else 'rule-fixed']
+            tags = [mclass(m), 'p<0' if r['spec_p'] < 0 else 'p>=0', 'via=' + a['via'] + ('(negative PART)' if a['via'] == 'part' and a.get('partn', 1) < 0 else ''), 'rule-open' if spec is None else 'rule-fixed']
             ctx.count(['occ', a['code'], case['fvars'][:abs(m)] if abs(m) > 1 else 0, a['via']], nontrivial=spec is not None and abs(m) > 1,
                       sample=dict(stream='occ', code=a['code'], fvars=case['fvars'][:4], via=a['via'], impl=[got_m, got],
                                   spec=[m, None if spec is None else float(spec)]) if abs(m) > 1 else None, tags=tags)
